@@ -587,7 +587,7 @@ decode_len_dist:
 
 	;; Check if a valid look back distances was decoded
 	cmp	copy_start, [rsp + start_out_mem_offset]
-	jl	invalid_look_back_distance
+	jl	invalid_look_back_distance_pre
 	MOVDQU	xmm1, [copy_start]
 
 	;; Set tmp2 to be the minimum of COPY_SIZE and repeat_length
@@ -742,6 +742,9 @@ out_buffer_overflow_lit:
 	jg	decode_len_dist_2
 	jmp	end_state
 
+invalid_look_back_distance_pre:
+	;; Reached from the main loop: next_out was already advanced past the copy
+	sub	next_out, repeat_length
 invalid_look_back_distance:
 	mov	rax, INVALID_LOOKBACK
 	jmp	end
@@ -776,7 +779,10 @@ end:
 	mov	[state + _read_in], read_in
 	mov	[state + _read_in_length], read_in_length %+ d
 
-	;; Set avail_out
+	;; Set avail_out. The buffer end is recomputed from the state since the
+	;; error exits of the main loop leave end_out and end_in reduced by the slop.
+	mov	end_out %+ d, dword [state + _avail_out]
+	add	end_out, [state + _next_out]
 	sub	end_out, next_out
 	mov	dword [state + _avail_out], end_out %+ d
 
@@ -788,12 +794,14 @@ end:
 	;; Set next_out
 	mov	[state + _next_out], next_out
 
-	;; Set next_in
-	mov	[state + _next_in], next_in
-
 	;; Set avail_in
+	mov	end_in %+ d, dword [state + _avail_in]
+	add	end_in, [state + _next_in]
 	sub	end_in, next_in
 	mov	[state + _avail_in], end_in %+ d
+
+	;; Set next_in
+	mov	[state + _next_in], next_in
 
 	FUNC_RESTORE
 
